@@ -181,6 +181,42 @@ func init() {
 			})
 		}
 		g.p("def handleExecveDefers : List String := %s\n\n", leanStrList(defers))
+		// the host side: every path through Builder.Build (a started container must be destroyed on every failing path)
+		var bp [][]string
+		if fd := findFunc(parseFile("container/environment_linux.go"), "Builder", "Build"); fd != nil {
+			bp = pathsOf(fd.Body.List)
+		} else {
+			fail("Builder.Build not found")
+		}
+		g.p("def buildPaths : List (List String) := [\n")
+		seenBP := map[string]bool{}
+		firstBP := true
+		for _, p := range bp {
+			sep := ","
+			if firstBP {
+				sep = ""
+			}
+			// keep the calls that matter for the clean-up and the returns
+			var q []string
+			for _, x := range p {
+				if x == "b.startContainer()" || x == "c.Ping()" || x == "c.Destroy()" || strings.HasPrefix(x, "return") || strings.HasPrefix(x, "c.conf(") || strings.HasPrefix(x, "os.MkdirTemp(") || x == "os.Getwd()" {
+					if strings.HasPrefix(x, "c.conf(") {
+						x = "c.conf(...)"
+					}
+					if strings.HasPrefix(x, "return fmt.Errorf(") {
+						x = "return fmt.Errorf(...)"
+					}
+					q = append(q, x)
+				}
+			}
+			if seenBP[strings.Join(q, "|")] {
+				continue
+			}
+			seenBP[strings.Join(q, "|")] = true
+			g.p("  %s%s\n", sep, leanStrList(q))
+			firstBP = false
+		}
+		g.p("]\n\n")
 		// the reaper goroutine: every path through one iteration of waitLoop's `for { select { ... } }`
 		var wl [][]string
 		if fd := findFunc(parseFile("container/container_init_linux.go"), "containerServer", "waitLoop"); fd != nil && len(fd.Body.List) == 1 {
